@@ -95,8 +95,14 @@ def run(chk):
         except Exception:  # noqa
             pass
     n_tree, n_text = (25000, 8000) if thorough else (1300, 500)
+    gen_errors = []
     for i in range(n_tree):
-        cases.append(("constructed", None, g.tree(rng.choice([1, 2, 3, 3, 4]))))
+        try:
+            cases.append(("constructed", None, g.tree(rng.choice([1, 2, 3, 3, 4]))))
+        except Exception as e:  # noqa  -- a constructor of the code under test refused a generated input: note it, go on
+            gen_errors.append("%s: %s" % (type(e).__name__, str(e)[:100]))
+    chk.obligation("the generator built its trees without a hy.models constructor raising", not gen_errors,
+                   "%d times, e.g. %s" % (len(gen_errors), "; ".join(gen_errors[:3])))
     unread = 0
     for i in range(n_text):
         t = qc.gen_text(rng, rng.choice([0, 1, 2, 3]))
